@@ -71,7 +71,7 @@ def run(ctx):
 
     # ---- R03.2
     sites = [(o, b, bi) for o, b, bi in call_sites(prog, TQS + 'add_ready_task') if not is_test_util(o)]
-    ctx.floor('R03.2', len(sites), 5, 'add_ready_task call sites')
+    ctx.floor('R03.2', len(sites), 1, 'add_ready_task call sites')
     placed_owners = {REACTOR + 'on_remove_worker': 'tasks taken from the lost worker assignment were already placed',
                      REACTOR + 'task_reject': 'a rejected task was already placed'}
     for o, b, bi in sites:
@@ -102,7 +102,7 @@ def run(ctx):
                 continue
             n += 1
             ctx.ob('R03.3', f'{fn}|{o.split("::")[-1]}', o in allowed, f'ComputeTasksBuilder::{fn} called from {o.split("::")[-1]}', b.loc(bi))
-    ctx.floor('R03.3', n, 5, 'ComputeTasksBuilder call sites')
+    ctx.floor('R03.3', n, 1, 'ComputeTasksBuilder call sites')
 
     # ---- R03.4
     tf = prog.body(REACTOR + 'task_failed')
